@@ -635,7 +635,8 @@ class C03(Prop):
                   "heap model of add_array () with its five reference-count tests regenerated from array.c: whatever branch is taken the "
                   "result holds p ++ r with one reference, an operand is reused only when the call held its only references, every array "
                   "still referenced keeps its elements and an exact count (Heap.addArray_refines), compared with the real add_array on "
-                  "unit traces; the conditions of the grammar's typed rewrites are regenerated and fire only for TYPE_NUMBER operands "
+                  "unit traces; heap model of slice_array () with its in-place test and exits regenerated: a range of an array somebody "
+                  "still holds is a new block (Heap.sliceArray_refines); the conditions of the grammar's typed rewrites are regenerated and fire only for TYPE_NUMBER operands "
                   "(rw_guards_int).  "
                   "Whole programs: generated typed programs in sibling "
                   "spellings run in the real driver and must equal the LpcOps-based evaluator exactly; the reference "
@@ -644,7 +645,7 @@ class C03(Prop):
                   "abstract in the theorems (FloatOps) and IEEE doubles in the driver; in-place fast paths keyed on reference counts "
                   "(add_array, string join, absorb / compose_mapping) are compared on generated self / aliased operand programs only "
                   "(no heap model); shift counts outside 0..63 are outside the model")
-    rule = ("cases = corpus + known-finding inputs + boundary list + seeded random cases from 21 families (binary/unary "
+    rule = ("cases = corpus + known-finding inputs + boundary list + seeded random cases from 22 families (binary/unary "
             "operators, op=, ++/--, index, range, index/range/char lvalues, integer / nested / string switches, loops, local / "
             "inherited / function-pointer calls, macros vs hand expansion, literals, zero-comparison rewrites, mapping algebra "
             "around every growMap threshold, self-operand / aliased-operand / freshness forms of the container and string operators "
@@ -657,11 +658,12 @@ class C03(Prop):
             "non-trivial when at least one function returns a value (not an error); distinct = distinct canonical trace")
     not_covered = ["identity of arrays and mappings: == on containers, stores seen through a shared reference (b = a; a[0] = 1) - the "
                    "reference evaluates by value, the generator only produces programs where LPC promises value semantics (self / aliased "
-                   "operands and freshness of results are generated and judged; heap-level theorem for add_array only - string join, "
+                   "operands and freshness of results are generated and judged; heap-level theorems for add_array and slice_array only - string join, "
                    "absorb_mapping / compose_mapping in-place paths are compared, not proved)",
                    "functionals: missing / surplus arguments beyond the generated shapes, varargs, function pointers stored in containers "
                    "or passed between objects, bind(); code generation for functionals (icode.c) is compared through programs only",
-                   "class members as operands of the self-operand forms; `&` / `|` on arrays",
+                   "class members as operands of the self-operand forms; `&` / `|` on arrays; freshness of results of explode / implode, "
+                   "keys / values, filter / map / sort_array / unique_array (not in the reference semantics); copy () of a buffer",
                    "shift counts outside 0..63 (C undefined behaviour; the model uses the x86 masking)",
                    "sign of a floating zero produced by folded `0 - x`",
                    "`-=` on char lvalues (documented as supported, raises 'Bad left type to -=')",
@@ -669,7 +671,7 @@ class C03(Prop):
 
     # families that exercise the code behind each regenerated tie: when a tie breaks, the search stage draws 2/3 of its programs
     # from them, so that a harmful change behind the broken tie yields a failing input and a harmless one a report that names the site
-    SITE_FAMS = {"guard:grammar-rewrites": ["fam_rewrite", "fam_binop", "fam_loop"], "guard:range_from_end": ["fam_range", "fam_lvalue", "fam_index"],
+    SITE_FAMS = {"guard:slice_array": ["fam_fresh", "fam_range", "fam_lvalue"], "guard:grammar-rewrites": ["fam_rewrite", "fam_binop", "fam_loop"], "guard:range_from_end": ["fam_range", "fam_lvalue", "fam_index"],
                  "guard:F_INDEX": ["fam_index", "fam_lvalue", "fam_loop"],
                  "guard:handle_define": ["fam_macrosubst", "fam_mdef", "fam_macro"],
                  "guard:add_array": ["fam_selfop", "fam_arrtrace", "fam_assignop", "fam_loop"]}
@@ -711,7 +713,7 @@ class C03(Prop):
                 atoms.append("eqUpTo %s" % q.group(1))
                 continue
             raise X.TieBroken("guard:handle_define", "atom outside the guard grammar: `%s` in `%s`" % (at, cond))
-        guards = self.gen_index_guards(X) + self.gen_range_from_end(X) + self.gen_add_array_guards(X) + self.gen_rewrite_guards(X)
+        guards = self.gen_index_guards(X) + self.gen_range_from_end(X) + self.gen_add_array_guards(X) + self.gen_slice_array_guard(X) + self.gen_rewrite_guards(X)
         return guards + ("\n/-- C (lib/lpc/lex.c handle_define): a body identifier of length `idlen` is replaced by parameter n iff\n"
                 "    `%s`  (l = strlen (args[n]); `eqUpTo k` = strncmp (args[n], ids, k) == 0) -/\n"
                 "def macroParamMatch (l idlen : Nat) (eqUpTo : Nat → Bool) : Bool := %s\n" % (cond.replace("-/", "- /"), " && ".join(atoms)))
@@ -905,6 +907,41 @@ class C03(Prop):
             txt += ("\n/-- C (lib/lpc/array.c add_array): `%s` - %s (same = `p == r`, pref / rref = the reference counts at that point) -/\n"
                     "def addArray%s (same : Bool) (pref rref : Nat) : Bool := %s\n" % (c, what, name, lean))
         return txt
+
+    def gen_slice_array_guard(self, X):
+        """T4: slice_array () (lib/lpc/array.c) may cut the operand down IN PLACE only under the test in front of
+        `p = RESIZE_ARRAY (p, to - from + 1)` - transcribed into `NV.Gen.C03.sliceArrayReuse` (argument: p->ref after the `--`);
+        every other way out must be the null array or a newly allocated `d`: any further `return` is a broken tie (then the search
+        stage runs the freshness / range families).  `Heap.sliceArray_refines` (Props10.lean) uses the regenerated test."""
+        import re
+        src = open(os.path.join(E.REPO, "lib/lpc/array.c")).read()
+        m = re.search(r"\narray_t\* slice_array \(array_t \* ?p, int from, int to\) \{(.*?)\n\}\n", src, re.S)
+        if not m:
+            raise X.TieBroken("guard:slice_array", "slice_array (array_t *p, int from, int to) not found in lib/lpc/array.c")
+        body = m.group(1)
+        k = body.find("p = RESIZE_ARRAY (p, to - from + 1);")
+        if k < 0:
+            raise X.TieBroken("guard:slice_array", "in-place statement `p = RESIZE_ARRAY (p, to - from + 1);` not found")
+        ifs = [(q.start(), q.group(1)) for q in re.finditer(r"if \(([^{};]*?)\)\s*\{", body) if q.start() < k]
+        # the outermost test that encloses the in-place block is the one followed by the ARRAY_STATS / `if (from)` code
+        enclosing = [c for st, c in ifs if "p->ref" in c]
+        if len(enclosing) != 1:
+            raise X.TieBroken("guard:slice_array", "expected exactly one reference-count test in front of the in-place block, found %r" % (enclosing,))
+        cond = " ".join(enclosing[0].split())
+        if cond in ("!(--p->ref)", "--p->ref == 0", "(--p->ref) == 0"):
+            lean = "decide (pref = 0)"
+        else:
+            q = re.fullmatch(r"\(?--p->ref\)? (==|<=|<|>|>=|!=) (\d+)", cond)
+            if not q:
+                raise X.TieBroken("guard:slice_array", "reference-count test outside the grammar: `%s`" % cond)
+            lean = "decide (pref %s %s)" % ({"==": "=", "!=": "≠", "<": "<", "<=": "≤", ">": ">", ">=": "≥"}[q.group(1)], q.group(2))
+        rets = [" ".join(r.split()) for r in re.findall(r"return ([^;]*);", body)]
+        if sorted(rets) != ["&the_null_array", "d", "p"]:
+            raise X.TieBroken("guard:slice_array", "slice_array must leave through `return &the_null_array;`, `return p;` (in place) and `return d;` (new block) only; found %r" % (rets,))
+        if not (body.find("return p;") > k):
+            raise X.TieBroken("guard:slice_array", "`return p;` outside the in-place block")
+        return ("\n/-- C (lib/lpc/array.c slice_array): `%s` - the operand is cut down in place (pref = p->ref after the decrement); every other exit is the null array or a new block -/\n"
+                "def sliceArrayReuse (pref : Nat) : Bool := %s\n" % (cond, lean))
 
     def gen_rewrite_guards(self, X):
         """T4: the conditions under which lib/lpc/grammar.y applies its typed peephole rewrites (`0 + X -> X`, `X + 0 -> X`,
@@ -2077,6 +2114,14 @@ class C03(Prop):
                 out.append(ini + [("expr", ("asg", L(B), h))] + rep(("expr", ("aop", op, h, h))) + [("ret", Arr([result(None), L(B)]))])
                 out.append(ini + [("expr", ("asg", L(B), h))] + rep(("expr", ("asg", h, ("bin", op, h, h)))) + [("ret", Arr([result(None), L(B)]))])
                 extra = [[len(out) - 2, len(out) - 1]]
+            # a right operand of ANOTHER size (the copy offsets of buffer / string / array `+=` must come from the left operand)
+            oth = {"arr": Arr([I(5)]), "str": S(b"!?"), "buf": Buf([1, 2, 3] if kind != "buf" or len(bs) != 3 else [9]),
+                   "map": Map([(I(-3), I(1))]), "num": I(3)}[kind]
+            if not (kind == "map" and op == "mul"):
+                out.append(ini + [("expr", ("aop", op, h, oth)), ("ret", result(None))])
+                out.append(ini + [("expr", ("asg", h, ("bin", op, h, oth))), ("ret", result(None))])
+                out.append(ini + [("expr", ("asg", L(B), oth)), ("expr", ("aop", op, h, L(B))), ("ret", result(None))])
+                extra.append([len(out) - 3, len(out) - 2, len(out) - 1])
             if times == 1:
                 # the value of the op= expression itself
                 out.append(ini + [("ret", ("aop", op, h, h))])
@@ -2231,8 +2276,75 @@ class C03(Prop):
             lines.append("arrtrace %d %d %d %d %d" % (same, ps, pe, rs, re_))
         return E.Case(cid, lines, {"origin": "generated", "family": "arrtrace"})
 
+    def fam_fresh(self, rng, cid):
+        """FRESHNESS of every container-producing operation: ranges in all forms (full extent, proper, empty), `x + empty`,
+        `empty + x`, `x - ({})`, `m + ([])`, copy (), allocate () - applied to a container that is still HELD in a variable, followed by
+        a store into the result or into the operand and a read of both.  By value the two are independent; an implementation that
+        hands the operand itself back (an alias) shows the store in the other one."""
+        kind = rng.weighted([("arr", 6), ("buf", 3), ("str", 2), ("map", 2)])
+        n = rng.choice([1, 2, 3, 3, 4, 7, 9])
+        if kind == "arr":
+            v0 = Arr([rng.choice([I(q + 1), S(b"e%d" % q), Fl(q + 0.5)]) for q in range(n)])
+            newv, newv2 = I(99), S(b"new")
+        elif kind == "buf":
+            v0 = Buf([rng.range(1, 250) for _ in range(n)])
+            newv, newv2 = I(99), I(0)
+        elif kind == "str":
+            v0 = ("bin", "add", S(bytes(rng.choice(b"abcdefgh") for _ in range(n))), S(b""))
+            newv, newv2 = I(88), I(65)
+        else:
+            v0 = Map([(rng.choice([I(q), S(b"k%d" % q)]), I(q + 10)) for q in range(n)])
+            newv, newv2 = I(99), S(b"new")
+        H = rng.choice([L(A), G(0)])
+        init = [("expr", ("asg", H, v0))]
+        ops = []
+        if kind != "map":
+            full = [("rnge", False, H, I(0)), ("rng", False, True, H, I(0), I(1)), ("rng", False, False, H, I(0), I(n - 1)),
+                    ("rng", True, True, H, I(n), I(1)), ("rnge", True, H, I(n)), ("rng", False, False, H, I(0), I(n + 5)),
+                    ("rng", False, False, H, I(0), I(2 ** 32)), ("rng", True, False, H, I(n), I(n - 1)),
+                    ("rng", False, True, H, L(LI), L(LJ))]            # bounds in variables: i = 0, j = 1
+            part = [("rnge", False, H, I(1)), ("rng", False, True, H, I(0), I(2)), ("rng", False, False, H, I(1), I(n - 1)),
+                    ("rng", False, False, H, I(0), I(0)), ("rnge", True, H, I(1))]
+            empty = [("rnge", False, H, I(n)), ("rng", False, False, H, I(1), I(0)), ("rng", False, False, H, I(n), I(n + 3))]
+            part = rng.shuffle(part)
+            ops += [("full", e) for e in full] + [("part", e) for e in part[:2]] + [("empty", rng.choice(empty))]
+        emp = {"arr": Arr([]), "buf": Buf([]), "str": S(b""), "map": Map([])}[kind]
+        ops += [("full", ("bin", "add", H, emp)), ("full", ("bin", "add", emp, H))]
+        if kind == "arr":
+            ops += [("full", ("bin", "sub", H, Arr([]))), ("full", ("bin", "sub", H, Arr([I(-77)]))),
+                    ("full", ("bin", "add", ("rng", False, False, H, I(0), I(0)), ("rnge", False, H, I(1))))]
+        if kind in ("arr", "map"):       # copy () does not duplicate a buffer (deep_copy_svalue: arrays, classes, mappings only) - undocumented, not judged
+            ops.append(("full", ("efun", "copy", [H])))
+        if kind == "map":
+            ops.append(("full", ("bin", "add", H, Map([(I(-9), I(1))]))))
+        ops = rng.shuffle(ops)
+        ops = ops[:6]
+        key = I(0) if kind != "map" else v0[1][0][0]
+        pre = [("expr", ("asg", L(LI), I(0))), ("expr", ("asg", L(LJ), I(1)))]
+        fns = []
+        for cls, e in ops:
+            st_res = [] if cls == "empty" else [("expr", ("asg", ("idx", L(D), key if cls != "part" or kind == "map" else I(0)), newv))]
+            # store into the RESULT, read the operand; store into the OPERAND, read the result; both
+            fns.append(pre + init + [("expr", ("asg", L(D), e))] + st_res + [("ret", Arr([L(D), H]))])
+            fns.append(pre + init + [("expr", ("asg", L(D), e)), ("expr", ("asg", ("idx", H, key), newv2)), ("ret", Arr([L(D), H]))])
+        if kind in ("arr", "map"):
+            # copy () is DEEP: a store into a nested container of the copy (or of the original) does not show in the other
+            inner = rng.choice([Arr([I(1), I(2)]), Map([(I(1), I(2))])])
+            ikey = I(0) if inner[0] == "arr" else I(1)
+            if kind == "arr":
+                nest, okey = Arr([I(7), inner, S(b"z")]), I(1)
+            else:
+                nest, okey = Map([(S(b"k"), inner), (I(3), I(4))]), S(b"k")
+            for tgt, oth in ((L(D), H), (H, L(D))):
+                fns.append([("expr", ("asg", H, nest)), ("expr", ("asg", L(D), ("efun", "copy", [H]))),
+                            ("expr", ("asg", ("idx", ("idx", tgt, okey), ikey), I(99))), ("ret", Arr([L(D), H]))])
+        # allocate (): two results are two arrays
+        fns.append([("expr", ("asg", L(A), ("efun", "allocate", [I(n)]))), ("expr", ("asg", L(B), ("efun", "allocate", [I(n)]))),
+                    ("expr", ("asg", ("idx", L(A), I(0)), I(5))), ("ret", Arr([L(A), L(B)]))])
+        return make_case(cid, fns, same=[], meta={"origin": "generated", "family": "fresh", "kind": kind})
+
     FAMS = [("fam_binop", 9), ("fam_unop", 2), ("fam_incdec", 3), ("fam_index", 5), ("fam_range", 5), ("fam_lvalue", 6),
-            ("fam_switch", 6), ("fam_loop", 6), ("fam_assignop", 5), ("fam_literal", 3), ("fam_rewrite", 4), ("fam_macro", 3), ("fam_calls", 5), ("fam_mapalg", 7), ("fam_maptrace", 5), ("fam_macrosubst", 7), ("fam_mdef", 4), ("fam_strswitch", 6), ("fam_selfop", 8), ("fam_funp", 8), ("fam_arrtrace", 3)]
+            ("fam_switch", 6), ("fam_loop", 6), ("fam_assignop", 5), ("fam_literal", 3), ("fam_rewrite", 4), ("fam_macro", 3), ("fam_calls", 5), ("fam_mapalg", 7), ("fam_maptrace", 5), ("fam_macrosubst", 7), ("fam_mdef", 4), ("fam_strswitch", 6), ("fam_selfop", 8), ("fam_funp", 8), ("fam_arrtrace", 3), ("fam_fresh", 7)]
 
     def generate(self, rng, n, tier):
         out = []
@@ -2347,7 +2459,7 @@ PROP.theorems = ["NV.C03." + t for t in (
     "HT.mapping_lookup_after_insert", "HT.empty_refines",
     "Macro.macroParamMatch_iff", "Macro.matchParam_eq_paramOf", "Macro.specGo_eq", "Macro.scan_eq", "Macro.goRaw_blank",
     "Macro.macro_definition_agrees", "Macro.macro_expansion_agrees",
-    "index_guard_buf", "index_guard_str", "index_guard_arr", "Heap.addArray_refines", "Heap.addArray_value", "rw_guards_int", "tyCode_int",
+    "index_guard_buf", "index_guard_str", "index_guard_arr", "Heap.addArray_refines", "Heap.addArray_value", "Heap.sliceArray_refines", "Heap.sliceItems_eq", "rw_guards_int", "tyCode_int",
     "mem_sortEntries", "pairwise_sortEntries", "sortedT_of_pairwise", "mem_strEntries", "string_switch_agrees",
     "wrap_id", "wrap_range", "tdiv_range", "tmod_range", "idiv_eq", "imod_eq")]
 PROP.witness_theorems = ["NV.C03." + t for t in (
